@@ -349,9 +349,9 @@ def generate(rng, tier):
         for _ in range(60):
             cases.append(_focus_session(rng, rng.randint(40, 120)))
     else:
-        for _ in range(20):
+        for _ in range(50):
             cases += _sweep_sessions(rng, rng.choice([60, 130, 400]))
-        for _ in range(1500):
+        for _ in range(4000):
             cases.append(_focus_session(rng, rng.randint(40, 200)))
     return cases
 
@@ -459,9 +459,7 @@ def run_impl(case):
                 res.append(["link", _label(st.units), _frs(_fr(st.magnitude)), _label(got.units), _frs(_fr(got.magnitude))])
             else:
                 raise ValueError(k)
-        except (ValueError, KeyError, AssertionError):
-            raise
-        except Exception as e:  # noqa
+        except Exception as e:  # noqa  (also a unit name pint cannot parse: an answer the model cannot give)
             res.append(["err", err_class(e)])
     return {"res": res}
 
@@ -521,7 +519,7 @@ def coq_case(case, obs):
 
 
 def coq_obs(case, obs):
-    return L(_coq_res(r) for r in obs["res"])
+    return L(_coq_res(r) for r in obs.get("res", []))  # harness error: no answers -> mismatch
 
 
 # ----------------------------------------------------------------------------------------------
